@@ -7,6 +7,8 @@
 // prints the bucket count and the UNSORTED enumeration (foreach order): it ties the model's hash functions,
 // binOf, growth rule and chain order to the code (the plugin's oracle treats a raw-only difference as
 // "model no longer describes the code", not as a failing input of the property).
+// `share s t` makes slot t a second HANDLE to the table of slot s (HashMap::operator=); every other op that
+// assigns to a slot (new, clone, from, union, inter, diff) gives it a table of its own.
 #include "common.h"
 #include <asl/Map.h>
 #include <asl/HashMap.h>
@@ -105,7 +107,8 @@ static std::string hashed(M* m, const Toks& t, const K&, const V&)
 	if (n < 3) return "bad-op";
 	M& a = m[slot(t[2])];
 	K k; V v;
-	if (op == "new" && n == 4) { int sz = (int)num(t[3]); if (sz < 1 || sz > 65536) return "bad-op"; a = M(sz); return "ok " + str(a.length()); }
+	if (op == "new" && n == 4) { int sz = (int)num(t[3]); if (sz < -3 || sz > 65536) return "bad-op"; a = M(sz); return "ok " + str(a.length()); }
+	if (op == "share" && n == 4) { m[slot(t[3])] = a; return "ok " + str(m[slot(t[3])].length()); }
 	if (op == "set" && n == 5) { parse(t[3], k); parse(t[4], v); a.set(k, v); return "ok " + str(a.length()); }
 	if (op == "asg" && n == 5) { parse(t[3], k); parse(t[4], v); a[k] = v; return "ok " + str(a.length()); }
 	if (op == "idx" && n == 4) { parse(t[3], k); V& r = a[k]; return show(r) + " " + str(a.length()); }
@@ -159,7 +162,8 @@ static std::string sets(S* m, const Toks& t, const K& kk)
 	if (n < 3) return "bad-op";
 	S& a = m[slot(t[2])];
 	K k;
-	if (op == "new" && n == 4) { int sz = (int)num(t[3]); if (sz < 1 || sz > 65536) return "bad-op"; a = S(sz); return "ok " + str(a.length()); }
+	if (op == "new" && n == 4) { int sz = (int)num(t[3]); if (sz < -3 || sz > 65536) return "bad-op"; a = S(sz); return "ok " + str(a.length()); }
+	if (op == "share" && n == 4) { m[slot(t[3])] = a; return "ok " + str(m[slot(t[3])].length()); }
 	if (op == "ins" && n == 4) { parse(t[3], k); a << k; return "ok " + str(a.length()); }
 	if (op == "rem" && n == 4) { parse(t[3], k); a >> k; return "ok " + str(a.length()); }
 	if (op == "has" && n == 4) { parse(t[3], k); return a.contains(k) ? "1" : "0"; }
